@@ -329,6 +329,75 @@ def tlc_trace(w, name, module, cfg_text, rows, chunk=1500, timeout=3000, obsfile
     return merged, states, trans
 
 
+def parse_tla_value(txt):
+    """Parse a TLA+ value as TLC prints it (records, sequences, sets, strings, integers, booleans)
+    into Python (dict, list, sorted list, str, int, bool)."""
+    pos = 0
+    n = len(txt)
+
+    def ws():
+        nonlocal pos
+        while pos < n and txt[pos] in " \t\r\n":
+            pos += 1
+
+    def value():
+        nonlocal pos
+        ws()
+        if txt.startswith("<<", pos):
+            pos += 2
+            return items(">>")
+        if txt[pos] == "{":
+            pos += 1
+            return sorted(items("}"), key=lambda x: json.dumps(x, sort_keys=True))
+        if txt[pos] == "[":
+            pos += 1
+            d = {}
+            while True:
+                ws()
+                if txt[pos] == "]":
+                    pos += 1
+                    return d
+                m = re.compile(r"(\w+)\s*\|->").match(txt, pos)
+                pos = m.end()
+                d[m.group(1)] = value()
+                ws()
+                if txt[pos] == ",":
+                    pos += 1
+        if txt[pos] == '"':
+            e = txt.index('"', pos + 1)
+            v = txt[pos + 1:e]
+            pos = e + 1
+            return v
+        m = re.compile(r"-?\d+|TRUE|FALSE").match(txt, pos)
+        pos = m.end()
+        return {"TRUE": True, "FALSE": False}.get(m.group(0), None) if m.group(0) in ("TRUE", "FALSE") else int(m.group(0))
+
+    def items(close):
+        nonlocal pos
+        out = []
+        while True:
+            ws()
+            if txt.startswith(close, pos):
+                pos += len(close)
+                return out
+            out.append(value())
+            ws()
+            if txt[pos] == ",":
+                pos += 1
+    return value()
+
+
+def parse_dump_states(path, variables):
+    """Yield, per state of a TLC -dump file, a dict variable -> parsed value."""
+    txt = open(path).read()
+    for st in re.split(r"^State \d+:\s*$", txt, flags=re.M)[1:]:
+        out = {}
+        for v in variables:
+            m = re.search(r"^(?:/\\ )?%s = (.*?)(?=^(?:/\\ )?\w+ = |\Z)" % re.escape(v), st, flags=re.M | re.S)
+            out[v] = parse_tla_value(m.group(1)) if m else None
+        yield out
+
+
 def parse_dump_records(path, var):
     """Parse a TLC -dump file whose states have one variable `var` holding a sequence of flat
     records with string/int/boolean fields. Yields one list of dicts per state."""
